@@ -195,7 +195,16 @@ class DegreeAnalysis:
             v = self.deg(t[3], env, atoms)
             return self._add(a, v, t)
         if k == 'mut':
-            return self.deg(t[2], env, atoms)
+            b = self.deg(t[2], env, atoms)
+            if t[1] in ('append', 'extend', 'insert') and t[3]:
+                # a list that received an element scales like the join of what it held and what was added
+                a = self.deg(t[3][-1], env, atoms)
+                if isinstance(a, tuple) and a[0] == 'seq':
+                    a = a[1]
+                if isinstance(b, tuple) and b[0] == 'seq':
+                    b = b[1]
+                return join(b, a)
+            return b
         if k == 'ifexp':
             return join(self.deg(t[2], env, atoms), self.deg(t[3], env, atoms))
         if k == 'comp':
@@ -423,7 +432,16 @@ class DegreeAnalysis:
         fi = self.P.funcs[q]
         env2 = dict(env)
         for var, it, conds in args[3]:
-            self._bind(var, 0, env2)
+            # the loop variable scales like the elements it runs over (0 for ranges, the array's degree for its rows)
+            d_it = self.deg(it, env2, atoms)
+            if isinstance(d_it, tuple) and d_it[0] == 'seq':
+                d_it = d_it[1]
+            elif isinstance(d_it, tuple) and d_it[0] == 'tup':
+                r = ANY
+                for x in d_it[1]:
+                    r = join(r, x)
+                d_it = r
+            self._bind(var, d_it, env2)
         elems = list(args[2][1]) if args[2][0] in ('tuple', 'list') else [args[2]]
         formals = list(fi.params)
         bound = {}
